@@ -792,6 +792,8 @@ def provInvariants (a : Acc) (lineNo : Nat) (op : Line) (ok : Bool) (b t : State
       let a := a.spec lineNo "C13.prune-own-only" (Spec.Prov.pruneExact b t)
       a.spec lineNo "C06.prune-exact" (Spec.Prov.pruneExact b t)
     else a
+  let a := a.spec lineNo "C06.current-key-resolves" (Spec.Prov.currentKeyResolves t)
+  let a := if op.name == "begin" || op.name == "end" then a.spec lineNo "C06.pruned-only-when-due" (Spec.Prov.prunedOnlyWhenDue b t) else a
   a.spec lineNo "C05.key-inv" (Spec.Prov.keyInv t)
 
 def stepProv (d : ProvDrv) (a : Acc) (s : Step) : ProvDrv × Acc :=
